@@ -110,11 +110,13 @@ namespace pika::thread_pool_bulk_detail {
                 template <typename Ts>
                 void do_work_chunk(Ts& ts, std::uint32_t const index) const
                 {
-                    auto const i_begin =
-                        static_cast<Shape>(index) * static_cast<Shape>(task_f->chunk_size);
-                    auto const i_end = (std::min)(
-                        (static_cast<Shape>(index) + 1) * static_cast<Shape>(task_f->chunk_size),
-                        task_f->n);
+                    auto const chunk = static_cast<Shape>(task_f->chunk_size);
+                    auto const i_begin = static_cast<Shape>(index) * chunk;
+                    // (index + 1) * chunk may be one past the largest value of Shape for the
+                    // last chunk (e.g. n = 2^32 - 1 or 2^31 - 1): compare with what is left
+                    auto const i_end = (task_f->n - i_begin) > chunk ?
+                        static_cast<Shape>(i_begin + chunk) :
+                        task_f->n;
                     for (auto i = i_begin; i < i_end; ++i)
                     {
                         std::apply(pika::util::detail::bind_front(op_state->f, i), ts);
